@@ -32,8 +32,8 @@ REAL_ONLY = ("GDE3", "OMOPSO", "SMPSO", "CMAES")          # arithmetic on the va
 MIN_ONLY = ("NSGAIII", "MOEAD")                            # constructor raises PlatypusError for MAXIMIZE
 SINGLE_OBJ = ("GA", "ES")
 MUTATOR_ALGS = ("ES", "PAES", "SMPSO")                     # take a Mutation (arity 1) where others take a variator
-KINDS = ("real", "integer", "binary", "perm", "subset", "binint", "realtiny")
-REAL_KINDS = ("real", "realtiny")
+KINDS = ("real", "integer", "binary", "perm", "subset", "binint", "realtiny", "intpow2")
+REAL_KINDS = ("real", "realtiny", "real6")     # real6: only in the particle-swarm stress runs
 
 # ----------------------------------------------------------------------------
 # user problems: RAW functions (pure, deterministic) and declared constraints
@@ -41,6 +41,8 @@ REAL_KINDS = ("real", "realtiny")
 CONS_DECL = {   # "cmp" style: only == <= >= != (exact, shipped to Coq); "strict": < > and a callable (oracle only)
     "real": ["<=0", ">=0.5"],
     "realtiny": ["<=0", ">=0.5"],
+    "real6": ["<=0", ">=0.5"],
+    "intpow2": ["<=0", "!=3"],
     "integer": ["<=0", "!=2"],
     "binary": ["<=0", ">=1"],
     "binint": ["<=0", ">=1"],
@@ -60,6 +62,21 @@ def raw_realtiny(x):
     # legal but very narrow ranges (1e-15, 2e-16 wide): every move of an operator is far below EPSILON
     o = [x[0] * 1e15 + x[1] * 1e16, (x[0] * 1e15 - 0.5) ** 2 + abs(x[1]) * 1e16]
     c = [math.floor(x[0] * 8e15) / 8 - 0.25, math.floor(x[1] * 4e16) / 4]
+    return o, c
+
+
+def raw_real6(x):
+    # ZDT1-like front over six variables: many mutually non-dominated solutions, so bounded leader archives truncate
+    f1 = x[0] + 0.05 * sum((v - 0.3) ** 2 for v in x[1:])
+    g = 1.0 + 9.0 * sum(x[1:]) / (len(x) - 1)
+    f2 = g * (1.0 - math.sqrt(x[0] / g))
+    c = [math.floor((x[0] + x[1]) * 8) / 8 - 1.5, math.floor(x[2] * 4) / 4]
+    return [f1, f2], c
+
+
+def raw_intpow2(x):
+    o = [(x[0] - 3) ** 2 + abs(x[1]) + x[2], abs(x[0] - 6) + (x[1] + 2) ** 2 - x[2]]
+    c = [x[0] + x[1] - 6, x[2]]
     return o, c
 
 
@@ -97,7 +114,7 @@ def raw_subset(x):
     return o, c
 
 
-RAW = {"real": raw_real, "realtiny": raw_realtiny, "integer": raw_integer, "binary": raw_binary, "binint": raw_binint,
+RAW = {"real": raw_real, "realtiny": raw_realtiny, "real6": raw_real6, "intpow2": raw_intpow2, "integer": raw_integer, "binary": raw_binary, "binint": raw_binint,
        "perm": raw_perm, "subset": raw_subset}
 
 
@@ -112,6 +129,9 @@ def make_types(kind):
     return {
         "real": lambda: [Real(-1, 2), Real(0, 1)],
         "realtiny": lambda: [Real(0.0, 1e-15), Real(-1e-16, 1e-16)],
+        "real6": lambda: [Real(0.0, 1.0) for _ in range(6)],
+        # ranges whose number of values is a power of two: every code of nbits bits is used
+        "intpow2": lambda: [Integer(0, 7), Integer(-8, 7), Integer(3, 4)],
         "integer": lambda: [Integer(-3, 5), Integer(0, 6)],
         "binary": lambda: [Binary(5), Binary(3)],
         "binint": lambda: [Binary(4), Integer(0, 6)],
@@ -379,7 +399,7 @@ def explicit_operator(cfg, want_mutator):
     """an explicitly supplied operator (index cfg['variator'] = 'explicit:<i>')"""
     from platypus import (GAOperator, SBX, PM, UM, PCX, UNDX, SPX, DifferentialEvolution, HUX, BitFlip, PMX, Swap,
                           Insertion, SSX, Replace, CompoundOperator, CompoundMutation)
-    kind = "real" if cfg["kind"] == "realtiny" else cfg["kind"]
+    kind = {"realtiny": "real", "real6": "real", "intpow2": "integer"}.get(cfg["kind"], cfg["kind"])
     i = int(cfg["variator"].split(":")[1])
     if want_mutator:
         opts = {
@@ -453,9 +473,9 @@ def build_algorithm(cfg, problem, evaluator, generator=None):
     elif alg == "PESA2":
         a = P.PESA2(problem, population_size=n, divisions=4, capacity=5, **kw)
     elif alg == "OMOPSO":
-        a = P.OMOPSO(problem, epsilons=[0.25], swarm_size=n, leader_size=4, max_iterations=10, mutation_probability=0.5, **kw)
+        a = P.OMOPSO(problem, epsilons=[0.25], swarm_size=n, leader_size=cfg.get("leader_size", 4), max_iterations=10, mutation_probability=0.5, **kw)
     elif alg == "SMPSO":
-        a = P.SMPSO(problem, swarm_size=n, leader_size=4, max_iterations=10, **kw)
+        a = P.SMPSO(problem, swarm_size=n, leader_size=cfg.get("leader_size", 4), max_iterations=10, **kw)
     elif alg == "CMAES":
         a = P.CMAES(problem, offspring_size=n, **kw)
     else:
@@ -509,6 +529,9 @@ class Tracer:
         self.n_restart_batches = 0
         self.submitted_domain_errors = []
         self.attrs = []                # per step: [(attribute name, [snapshot indices])]
+        self.prev_exposed_ids = set()  # ids of everything exposed at the previous boundary
+        self.alias = []                # (step, attribute, sid): an object that had to be NEW was exposed before
+        self.light = False             # light: no snapshots (oracle-only stress runs)
         self.eval_var_changes = []     # evaluate_all must not change the (decoded) variables of what it is given
 
     def sid(self, s):
@@ -519,6 +542,8 @@ class Tracer:
         return self.sid_of[k]
 
     def snap(self, s):
+        if self.light:
+            return 0
         t = (self.sid(s), tuple(snap_value(v) for v in s.variables), snap_nums(s.objectives), snap_nums(s.constraints),
              s.constraint_violation, bool(getattr(s, "feasible", False)), bool(s.evaluated))
         r = repr(t)
@@ -616,12 +641,27 @@ class Tracer:
     def boundary(self, alg, oracle):
         exp = self.exposed_objects(alg)
         idx = [self.snap(s) for _, s in exp]
-        self.steps.append((self.cur_batches, idx))
-        self.attrs.append(self.attribute_contents(alg))
+        if self.light:
+            self.steps.append(([], []))
+            self.attrs.append([])
+        else:
+            self.steps.append((self.cur_batches, idx))
+            self.attrs.append(self.attribute_contents(alg))
+        # the step models say these attributes hold NEW objects after every step (AlgSteps: pso_move = deep copies,
+        # CMAES.sample / PESA2 offspring): none of them may be an object that was exposed at the previous boundary
+        fresh_attr = FRESH_ATTR.get(type(alg).__name__)
+        if fresh_attr and self.nsteps > 0:
+            for s in getattr(alg, fresh_attr):
+                if id(s) in self.prev_exposed_ids and len(self.alias) < 5:
+                    self.alias.append((self.nsteps, fresh_attr, self.sid(s)))
+        self.prev_exposed_ids = set(id(s) for _, s in exp)
         oracle(self.nsteps, exp)
         self.cur_batches = []
         self.pool_ids = set(id(s) for _, s in exp)
         self.nsteps += 1
+
+
+FRESH_ATTR = {"OMOPSO": "particles", "SMPSO": "particles", "CMAES": "population", "PESA2": "population"}
 
 
 class StopRun(Exception):
@@ -686,6 +726,7 @@ def run_config(cfg):
             out["why"] = "problem: %s" % e
             return out
         tracer = Tracer(problem)
+        tracer.light = bool(cfg.get("light"))
         tracer.install()
         if script:
             script.install()
@@ -777,6 +818,7 @@ def run_config(cfg):
                                             "(results paired with the wrong solution)" % (d0, d1)})
         for (st, bn, sid, err) in tracer.submitted_domain_errors[:5]:
             out["c07_fail"].append({"step": st, "batch": bn, "sid": sid, "what": "submitted to evaluate_all: " + err})
+        out["alias"] = [{"step": a, "attr": b, "sid": c} for a, b, c in tracer.alias]
         out["trace"] = {"table": tracer.table, "init": tracer.init, "steps": tracer.steps, "attrs": tracer.attrs}
         out["n_batches"] = sum(len(b) for b, _ in tracer.steps)
         out["n_multi_batch_steps"] = sum(1 for b, _ in tracer.steps if len(b) > 1)
@@ -1322,7 +1364,7 @@ def operator_catalog(kind):
                 "UM": lambda: UM(0.4), "PCX": lambda: PCX(3, 2), "UNDX": lambda: UNDX(3, 2), "SPX": lambda: SPX(3, 2),
                 "GAOperator(SBX,PM)": lambda: GAOperator(SBX(0.5), PM(0.3)),
                 "CompoundMutation(PM,UM)": lambda: CompoundMutation(PM(0.3), UM(0.3))}
-    if kind in ("binary", "integer", "binint"):
+    if kind in ("binary", "integer", "binint", "intpow2"):
         return {"BitFlip": lambda: BitFlip(0.1), "HUX": lambda: HUX(0.6), "GAOperator(HUX,BitFlip)": lambda: GAOperator(HUX(0.5), BitFlip(0.05))}
     if kind == "perm":
         return {"Swap": lambda: Swap(0.4), "Insertion": lambda: Insertion(0.4), "PMX": lambda: PMX(0.5),
@@ -1388,3 +1430,64 @@ def deepcopy_case(kind, seed):
     if c.variables is p.variables or c.objectives is p.objectives:
         return "deep copy shares its arrays with the original"
     return None
+
+
+# ----------------------------------------------------------------------------
+# particle-swarm stress runs (bounded leader archive that really truncates)
+# ----------------------------------------------------------------------------
+def pso_stress_configs(rng, n):
+    """OMOPSO / SMPSO with a small leader archive, a larger swarm, a front with many non-dominated points, long runs"""
+    out = []
+    for k in range(n):
+        alg = ("OMOPSO", "SMPSO")[k % 2]
+        out.append({"alg": alg, "kind": "real6", "cons": rng.choice(["none", "cmp"]), "maximize": False,
+                    "variator": rng.choice(["default", "default", "explicit:0"]) if alg == "SMPSO" else "default",
+                    "evaluator": rng.choice(["map", "map", "copy"]), "seed": rng.randrange(1, 10 ** 6), "script": None,
+                    "size": rng.choice([12, 16, 20, 24, 30]), "leader_size": rng.choice([2, 3, 5]), "steps": rng.choice([40, 50, 60]),
+                    "subclass": False, "light": True, "timeout": 120})
+    return out
+
+
+# ----------------------------------------------------------------------------
+# Integer: EVERY bit string of the declared length must decode into [min, max]
+# ----------------------------------------------------------------------------
+INTEGER_RANGES = [(0, 7), (-8, 7), (3, 4), (0, 1), (0, 15), (100, 355), (0, 255), (-128, 127), (0, 5), (0, 6), (-3, 5), (0, 8), (0, 9),
+                  (1, 16), (1, 17), (-1, 1), (-7, 8), (0, 1023), (0, 1024), (0, 1022), (5, 4100), (-2048, 2047), (0, 4095), (10, 73), (0, 2)]
+
+
+def integer_decode_sweep(ranges, rng, max_exhaustive_bits=12, samples=4096):
+    """returns (number of codes decoded, list of (key, description, replay))"""
+    from platypus import Integer
+    import itertools
+    fails, n = [], 0
+    for (a, b) in ranges:
+        t = Integer(a, b)
+        k = t.nbits
+        if k <= max_exhaustive_bits:
+            codes = itertools.product([False, True], repeat=k)
+        else:
+            codes = ([rng.random() < 0.5 for _ in range(k)] for _ in range(samples))
+        for bits in codes:
+            n += 1
+            v = t.decode(list(bits))
+            if isinstance(v, bool) or not isinstance(v, int) or not (a <= v <= b):
+                fails.append(("integer-decode-out-of-range", "Integer(%d, %d) (nbits %d): the bit string %s decodes to %r, outside [%d, %d]" % (
+                    a, b, k, "".join("1" if x else "0" for x in bits), v, a, b), {"kind": "integer-decode", "min": a, "max": b, "bits": [bool(x) for x in bits]}))
+                break
+        # and the declared width is the minimal one the model assumes: 2^(nbits-1) <= max-min < 2^nbits
+        if not (2 ** (k - 1) <= b - a < 2 ** k):
+            fails.append(("integer-nbits-not-minimal", "Integer(%d, %d).nbits = %d but 2^(nbits-1) <= max-min < 2^nbits fails (max-min = %d)" % (a, b, k, b - a),
+                          {"kind": "integer-nbits", "min": a, "max": b}))
+    return n, fails
+
+
+def integer_decode_replay(rp):
+    from platypus import Integer
+    t = Integer(rp["min"], rp["max"])
+    if rp["kind"] == "integer-nbits":
+        k = t.nbits
+        return None if 2 ** (k - 1) <= rp["max"] - rp["min"] < 2 ** k else "nbits = %d" % k
+    if len(rp["bits"]) != t.nbits:
+        return None
+    v = t.decode(list(rp["bits"]))
+    return None if rp["min"] <= v <= rp["max"] else "decodes to %r" % (v,)
